@@ -82,15 +82,38 @@ def ncalls_valid(tr):
 def mon_c03(tr):
     if tr.get("exc") and tr["exc"][0] == "LoopGuard":
         return ("non-termination", "optimize() did not terminate: " + tr["exc"][1])
+    initd = [e for e in tr.get("events", []) if e[0] == "init_done"]
+    if initd and "options0" in tr:
+        # the budget clause does not need a result: target calls are counted also when optimize() ends with an exception
+        b0, nfs0, n0 = tr["options0"]["max_fun_evals"], tr["options0"]["noise_final_samples"], len(tr["calls"])
+        if initd[0][1]["fc"] <= b0 and nfs0 >= 0 and n0 > b0:
+            return ("budget", f"{n0} target calls exceed max_fun_evals={b0} (initial design used {initd[0][1]['fc']})"
+                              + (f"; optimize() then ended with {tr['exc'][0]}" if tr.get("exc") else ""))
     if "result" not in tr:
         return None
     r, o0, fin = tr["result"], tr["options0"], tr["final"]
     budget = o0["max_fun_evals"]
-    initd = [e for e in tr["events"] if e[0] == "init_done"]
     fc_init = initd[0][1]["fc"] if initd else 0
     n = len(tr["calls"])
-    if fc_init <= budget and n > budget:
+    nfs_user = o0["noise_final_samples"]
+    # premises of the property: the budget covers the initial design; noise_final_samples is a count (not negative)
+    if fc_init <= budget and nfs_user >= 0 and n > budget:
         return ("budget", f"{n} target calls exceed max_fun_evals={budget} (initial design used {fc_init})")
+    # the reserve, restated in the USER's terms: a stochastic run sets aside min(noise_final_samples, budget - initial calls)
+    # evaluations for the final re-sampling, the loop gets the rest, a deterministic run reserves nothing
+    reserve = 0
+    if initd:
+        noisy = initd[0][1]["level"] > 0
+        reserve = min(nfs_user, budget - fc_init) if noisy else 0
+        if initd[0][2]["max_fun_evals"] != budget - reserve or (noisy and initd[0][2]["nfs"] != reserve):
+            return ("reserve", f"max_fun_evals={budget}, noise_final_samples={nfs_user}, {fc_init} initial calls, {'stochastic' if noisy else 'deterministic'} target: "
+                               f"the loop budget is {initd[0][2]['max_fun_evals']} and the reserve {initd[0][2]['nfs'] if noisy else 0}, expected {budget - reserve} and {reserve}")
+        nfinal = sum(1 for c in tr["calls"] if c["phase"] == "final")
+        if nfinal not in (0, max(reserve, 0)):
+            return ("reserve-spent", f"the final re-sampling made {nfinal} target calls, the reserve is {reserve}")
+        nloop = n - nfinal
+        if fc_init <= budget and nfs_user >= 0 and nloop > budget - reserve:
+            return ("loop-budget", f"{nloop} target calls before the final re-sampling exceed max_fun_evals - reserve = {budget} - {reserve}")
     if r["iterations"] > o0["max_iter"] - 1 + 0 and r["iterations"] > o0["max_iter"]:
         return ("max_iter", f"iterations {r['iterations']} > max_iter {o0['max_iter']}")
     polls = sum(1 for e in tr["events"] if e[0] == "poll_begin")
@@ -106,6 +129,8 @@ def mon_c03(tr):
     last = probes[-1] if probes else None
     if m == 1 and not (last[2]["fc"] >= eff_budget):
         return ("message", f"message says max_fun_evals reached but func_count {last[2]['fc']} < {eff_budget}")
+    if m == 1 and not (last[2]["fc"] >= budget - max(reserve, 0)):
+        return ("message", f"message says max_fun_evals reached but the loop stopped at func_count {last[2]['fc']} < max_fun_evals - reserve = {budget} - {reserve}")
     if m == 2 and not (last[1]["poll_iteration"] >= o0["max_iter"] - 1):
         return ("message", f"message says max_iter reached but poll iteration {last[1]['poll_iteration']} < max_iter-1")
     if m == 3 and not (last[2]["mesh"] < initd[0][2]["tol_mesh_state"]):
@@ -119,6 +144,25 @@ def mon_c03(tr):
                 stall = e[7]
         if stall is None or not (stall < initd[0][2]["tol_fun"]):
             return ("message", f"message says tol_fun stall but historic improvement {stall} >= tol_fun")
+    return None
+
+
+def mon_c03_unspent(tr):
+    """message clause in the USER's terms, strict reading: a run that reports "reached max_fun_evals" has made max_fun_evals target
+    calls.  Kept apart from mon_c03 (it is an open known finding: a stochastic run that stops before the first poll iteration completes
+    never spends its reserve) so that it can never hide another violation."""
+    if "result" not in tr or tr["result"]["msg_id"] != 1:
+        return None
+    o0 = tr["options0"]
+    budget, nfs_user = o0["max_fun_evals"], o0["noise_final_samples"]
+    initd = [e for e in tr["events"] if e[0] == "init_done"]
+    if not initd or nfs_user < 0 or initd[0][1]["fc"] > budget:
+        return None
+    n = len(tr["calls"])
+    if n < budget:
+        return ("message-budget-unspent-reserve",
+                f"message says max_fun_evals reached but only {n} of max_fun_evals={budget} target calls were made: {initd[0][2]['nfs']} evaluations were reserved for the "
+                f"final re-sampling, which did not run (the loop stopped in iteration {tr['result']['iterations']})")
     return None
 
 
